@@ -23,6 +23,7 @@ from concurrent.futures import ThreadPoolExecutor
 VERIF = os.path.dirname(os.path.dirname(os.path.abspath(__file__)))
 HARNESS = os.path.join(VERIF, "harness")
 BUILD = os.path.join(VERIF, ".build")
+MAXRSS_MB = int(os.environ.get("VERIF_MAXRSS_MB", "4096"))
 REPLAYS = os.path.join(VERIF, "replays")
 EVIDENCE = os.path.join(VERIF, "evidence")
 CORPUS = os.path.join(VERIF, "corpus")
@@ -77,15 +78,43 @@ class Job:
         self.rc, self.out, self.wall, self.timed_out = None, "", 0.0, False
 
     def run(self):
+        # the worker runs under a watchdog: wall-clock limit and resident-set limit (the sandbox has
+        # no memory limit of its own, and RLIMIT_AS cannot be used with the race detector's shadow
+        # mapping); a worker that outgrows MAXRSS_MB is killed and handled like any other worker death
         os.makedirs(self.cwd, exist_ok=True)
         t0 = time.time()
-        try:
-            p = subprocess.run(self.argv, cwd=self.cwd, env=self.env, stdout=subprocess.PIPE,
-                               stderr=subprocess.STDOUT, text=True, errors="replace", timeout=self.timeout)
-            self.rc, self.out = p.returncode, p.stdout
-        except subprocess.TimeoutExpired as ex:
-            self.rc, self.timed_out = -9, True
-            self.out = (ex.stdout or b"").decode("utf8", "replace") if isinstance(ex.stdout, bytes) else (ex.stdout or "")
+        logf = os.path.join(self.cwd, f"out-{os.getpid()}-{id(self)}.log")
+        with open(logf, "wb") as lf:
+            p = subprocess.Popen(self.argv, cwd=self.cwd, env=self.env, stdout=lf, stderr=subprocess.STDOUT)
+            self.max_rss_mb, self.oom = 0, False
+            while True:
+                try:
+                    p.wait(timeout=0.5)
+                    break
+                except subprocess.TimeoutExpired:
+                    pass
+                try:
+                    with open(f"/proc/{p.pid}/statm") as f:
+                        rss = int(f.read().split()[1]) * 4096 // (1 << 20)
+                    self.max_rss_mb = max(self.max_rss_mb, rss)
+                except (OSError, ValueError, IndexError):
+                    rss = 0
+                if rss > MAXRSS_MB:
+                    self.oom = True
+                    p.kill()
+                    p.wait()
+                    break
+                if time.time() - t0 > self.timeout:
+                    self.timed_out = True
+                    p.kill()
+                    p.wait()
+                    break
+            self.rc = p.returncode
+        with open(logf, "r", errors="replace") as f:
+            self.out = f.read()
+        os.remove(logf)
+        if self.oom:
+            self.out += f"\nKILLED: resident set exceeded {MAXRSS_MB} MB\n"
         self.wall = time.time() - t0
         return self
 
@@ -417,6 +446,8 @@ def main():
                     tries = cfg.get("confirm_tries", 3)
                     for k in range(tries):
                         r = run_replay(binaries[j.argv[0].endswith(".race.test")], cand, rundir, f"confirm-{os.path.basename(cand)}-{k}", excludes)
+                        if r.timed_out and not cfg.get("hang_is_violation"):
+                            continue  # a time budget hit is inconclusive unless the property is about termination
                         if r.rc != 0:
                             dst = os.path.join(REPLAYS, f"{pid}-died-{hashlib.sha1(open(cand,'rb').read()).hexdigest()[:16]}.json")
                             shutil.copy(cand, dst)
